@@ -16,6 +16,7 @@ import (
 	"fmt"
 	"math/rand"
 	"os"
+	"strings"
 
 	"github.com/mimiro-io/datahub/internal/server"
 	"github.com/mimiro-io/datahub/internal/verif/gen"
@@ -25,6 +26,7 @@ import (
 )
 
 type sdBulk struct {
+	Huge  bool   `json:"huge,omitempty"` // include the 26 MB batches
 	Kind  string `json:"kind"`
 	Sizes []int  `json:"sizes"`
 	Bad   int    `json:"bad"`
@@ -38,13 +40,13 @@ func bulkEnt(salt, i int) model.Ent {
 }
 
 func sdBulkCase(ctx *Ctx, r *rand.Rand) {
-	runSDBulk(ctx, sdBulk{Kind: "bulk", Sizes: []int{250, 1200, 150}, Bad: 1100 + r.Intn(300), Salt: r.Intn(1000)})
+	runSDBulk(ctx, sdBulk{Huge: ctx.Arg("huge", "") != "" || ctx.Seed%4 == 0, Kind: "bulk", Sizes: []int{250, 1200, 150}, Bad: 1100 + r.Intn(300), Salt: r.Intn(1000)})
 }
 
 func runSDBulk(ctx *Ctx, c sdBulk) {
 	id := outHash(c)
 	prop := "C01"
-	for _, p := range []string{"C01", "C02", "C04"} {
+	for _, p := range []string{"C01", "C02", "C04", "C05"} {
 		if ctx.Has(p) {
 			prop = p
 			break
@@ -104,6 +106,55 @@ func runSDBulk(ctx *Ctx, c sdBulk) {
 		return
 	}
 	ctx.Out.Stat("bulk_refused_batches_without_effect", 1)
+
+	// 1b. a batch too large for one storage transaction (44 entities of 600 KB): stored as a whole or refused as a
+	// whole - with an invalid last entity it can only be refused, and nothing of it may stay
+	for _, poison := range []bool{true, false} {
+		if !c.Huge {
+			break
+		}
+		var huge []model.Ent
+		pad := strings.Repeat("x", 600<<10)
+		for i := 0; i < 44; i++ {
+			e := bulkEnt(c.Salt+2, i)
+			e.Props[gen.NsP+"pad"] = pad
+			huge = append(huge, e)
+		}
+		var hp []*server.Entity
+		if err := server.NewEntityStreamParser(st).ParseStream(bytes.NewReader(gen.Payload(huge, false)), func(e *server.Entity) error { hp = append(hp, e); return nil }); err != nil {
+			ctx.Out.Inconclusive(id, prop, "parse huge: "+err.Error())
+			return
+		}
+		if poison {
+			for k := range hp[len(hp)-1].References {
+				hp[len(hp)-1].References[k] = nil
+			}
+		}
+		err := ds.StoreEntities(hp)
+		l, _ := obs.Listing(st, ds, 0)
+		f, _, _ := obs.Feed(st, ds, 0, nil, false)
+		switch {
+		case err != nil && (len(l) != 0 || len(f) != 0):
+			viol("C04", "refused-batch-partly-stored", fmt.Sprintf("a batch of 44 entities of 600 KB each (invalid last entity: %v) was refused (%s), yet the dataset lists %d entities and feeds %d changes", poison, bulkTrunc(firstLine(err.Error()), 160), len(l), len(f)), 0, len(l))
+			return
+		case err == nil && poison:
+			viol("C04", "invalid-batch-accepted", "a 26 MB batch whose last entity carries a nil reference value was accepted", nil, nil)
+			return
+		case err == nil && (len(l) != 44 || len(f) != 44):
+			viol("C04", "accepted-batch-partly-stored", fmt.Sprintf("a 26 MB batch of 44 entities was accepted, the dataset lists %d entities and feeds %d changes", len(l), len(f)), 44, len(l))
+			return
+		}
+		if err == nil {
+			// accepted as a whole: start the rest of the case from an empty dataset again
+			_ = core.Dsm.DeleteDataset("big")
+			if _, cerr := core.Dsm.CreateDataset("big", nil); cerr != nil {
+				ctx.Out.Inconclusive(id, prop, "re-create dataset: "+cerr.Error())
+				return
+			}
+			ds = core.Dsm.GetDataset("big")
+		}
+		ctx.Out.Stat("bulk_oversized_batches_all_or_nothing", 1)
+	}
 
 	// 2. the bulk content
 	var all []model.Ent
@@ -260,4 +311,11 @@ func sdBulkScenario(ctx *Ctx) error {
 		sdBulkCase(ctx, r)
 	}
 	return nil
+}
+
+func bulkTrunc(s string, n int) string {
+	if len(s) > n {
+		return s[:n] + "…"
+	}
+	return s
 }
